@@ -133,6 +133,7 @@ func init() {
 		ID: "C11",
 		Rule: "style documents: 0-4 records, each with its own indentation (4/3/2 spaces, tab, or no indented line), line ending (per file or per record), date separator, clock convention, dash spacing and placeholder length, including ties between styles and whitespace-only lines before the first record; " +
 			"x track/start/stop/switch/pause/create on an existing or a new record x date_format/time_convention settings; each command is run 4 times on the same input (byte-equality) through the real CLI. " +
+			"1 case in 8: a configuration file (documented settings in any order with duplicates, comments, sections, empty values; or odd/malformed lines) x environment (NO_COLOR, EDITOR) read by the real app.NewConfig. " +
 			"Non-trivial: at least 2 records with different styles; distinct = distinct (file, command, config)",
 		Count: func(tier string) int {
 			if tier == "thorough" {
@@ -141,6 +142,9 @@ func init() {
 			return 6000
 		},
 		Gen: func(r *Rand, idx int, tier string) map[string]any {
+			if idx%8 == 7 { // the configuration file itself
+				return genConfigCase(r)
+			}
 			text, recs := GenStyleDoc(r)
 			cfg := CfgSpec{}
 			if r.P(1, 4) {
@@ -217,6 +221,9 @@ func init() {
 }
 
 func runC11(env *Env, data map[string]any) *Outcome {
+	if str(data, "kind") == "cfgfile" {
+		return runConfigCase(env, data, "C11")
+	}
 	c := cmdCaseOf(data)
 	o := &Outcome{Key: hashKey(fmt.Sprint(data)), Tags: []string{"cmd:" + c.Cmd.Kind}}
 	var recs []map[string]any
